@@ -157,6 +157,8 @@ TABLE = {
             {"driver": "wakeup", "required_clauses": ["wakeup"], "opts": {"quick": {"preempt": 100}, "thorough": {"preempt": 100}}, "shards": 1},
             {"driver": "run", "required_clauses": ["run-stop"], "opts": {"quick": {"preempt": 100}, "thorough": {"preempt": 100}}, "shards": 1},
             {"driver": "block_on", "required_clauses": ["block-on"], "opts": {"quick": {"preempt": 100}, "thorough": {"preempt": 100}}, "shards": 1},
+            {"driver": "signal-mt", "required_clauses": ["run-stop-mt"],
+             "opts": {"quick": {"threads": 2, "len": 2, "preempt": 2}, "thorough": {"threads": 2, "len": 3, "preempt": 3, "wall": 1200}}},
         ],
     },
     "C17": {
